@@ -194,8 +194,8 @@ theorem Proportion.finishWilson_eq_ok [Scalar W] {conf : Confidence W} {m s : W}
     (h : Proportion.finishWilson conf m s = .ok i) :
     ∃ lo hi, i = .twoSided lo hi ∧ gt lo hi = false ∧
       (conf.kind = .twoSided → lo = fmax (sub m s) zero ∧ hi = fmin (add m s) one) ∧
-      (conf.kind = .upper → lo = fmax (sub m s) zero ∧ hi = one) ∧
-      (conf.kind = .lower → lo = zero ∧ hi = fmin (add m s) one) := by
+      (conf.kind = .upper → lo = fmin (fmax (sub m s) zero) one ∧ hi = one) ∧
+      (conf.kind = .lower → lo = zero ∧ hi = fmax (fmin (add m s) one) zero) := by
   cases conf <;> simp only [Proportion.finishWilson] at h <;>
     obtain ⟨h1, h2⟩ := liftI_new_eq_ok h <;>
     exact ⟨_, _, h1, h2, by simp [Confidence.kind]⟩
@@ -206,16 +206,16 @@ theorem Proportion.finishWilson_eq_err' [Scalar W] {conf : Confidence W} {m s : 
     (h : Proportion.finishWilson conf m s = .err e) :
     e = .interval .invalidBounds ∧ ∃ lo hi, gt lo hi = true ∧
       (conf.kind = .twoSided → lo = fmax (sub m s) zero ∧ hi = fmin (add m s) one) ∧
-      (conf.kind = .upper → lo = fmax (sub m s) zero ∧ hi = one) ∧
-      (conf.kind = .lower → lo = zero ∧ hi = fmin (add m s) one) := by
+      (conf.kind = .upper → lo = fmin (fmax (sub m s) zero) one ∧ hi = one) ∧
+      (conf.kind = .lower → lo = zero ∧ hi = fmax (fmin (add m s) one) zero) := by
   cases conf <;> simp only [Proportion.finishWilson] at h
   · rcases liftI_new_cases (W := W) (fmax (sub m s) zero) (fmin (add m s) one) with
       ⟨h1, _⟩ | ⟨h1, h2⟩ <;> rw [h1] at h <;> cases h
     exact ⟨rfl, _, _, h2, by simp [Confidence.kind]⟩
-  · rcases liftI_new_cases (W := W) (fmax (sub m s) zero) (one : W) with
+  · rcases liftI_new_cases (W := W) (fmin (fmax (sub m s) zero) one) (one : W) with
       ⟨h1, _⟩ | ⟨h1, h2⟩ <;> rw [h1] at h <;> cases h
     exact ⟨rfl, _, _, h2, by simp [Confidence.kind]⟩
-  · rcases liftI_new_cases (W := W) (zero : W) (fmin (add m s) one) with
+  · rcases liftI_new_cases (W := W) (zero : W) (fmax (fmin (add m s) one) zero) with
       ⟨h1, _⟩ | ⟨h1, h2⟩ <;> rw [h1] at h <;> cases h
     exact ⟨rfl, _, _, h2, by simp [Confidence.kind]⟩
 
@@ -460,12 +460,12 @@ theorem ciWilson_eq_invalidBounds {crit : Crit W} {conf : Confidence W} {n k : N
         hi = fmin (add (wilsonCentre (Scalar.ofNat n) (Scalar.ofNat k) (crit (.z conf.quantile)))
           (wilsonSpan (Scalar.ofNat n) (Scalar.ofNat k) (crit (.z conf.quantile)))) one) ∧
       (conf.kind = .upper →
-        lo = fmax (sub (wilsonCentre (Scalar.ofNat n) (Scalar.ofNat k) (crit (.z conf.quantile)))
-          (wilsonSpan (Scalar.ofNat n) (Scalar.ofNat k) (crit (.z conf.quantile)))) zero ∧
+        lo = fmin (fmax (sub (wilsonCentre (Scalar.ofNat n) (Scalar.ofNat k) (crit (.z conf.quantile)))
+          (wilsonSpan (Scalar.ofNat n) (Scalar.ofNat k) (crit (.z conf.quantile)))) zero) one ∧
         hi = one) ∧
       (conf.kind = .lower → lo = zero ∧
-        hi = fmin (add (wilsonCentre (Scalar.ofNat n) (Scalar.ofNat k) (crit (.z conf.quantile)))
-          (wilsonSpan (Scalar.ofNat n) (Scalar.ofNat k) (crit (.z conf.quantile)))) one) := by
+        hi = fmax (fmin (add (wilsonCentre (Scalar.ofNat n) (Scalar.ofNat k) (crit (.z conf.quantile)))
+          (wilsonSpan (Scalar.ofNat n) (Scalar.ofNat k) (crit (.z conf.quantile)))) one) zero) := by
   by_cases h1 : n < k
   · rw [ciWilson_of_gt crit conf h1] at h; cases h
   have h1 : k ≤ n := by omega
@@ -1594,11 +1594,11 @@ theorem Proportion.finishWilson_ok_unit_RR {fl : ℝ → ℝ} {conf : Confidence
     rw [hg] at this; cases this
   refine ⟨lo, hi, rfl, ?_, hle, ?_⟩ <;> cases conf
   · rw [(k1 rfl).1, fmax_val]; exact le_max_right _ _
-  · rw [(k2 rfl).1, fmax_val]; exact le_max_right _ _
+  · rw [(k2 rfl).1, fmin_val, fmax_val]; exact le_min (le_max_right _ _) (by simp)
   · rw [(k3 rfl).1]; simp
   · rw [(k1 rfl).2, fmin_val]; exact min_le_right _ _
   · rw [(k2 rfl).2]; simp
-  · rw [(k3 rfl).2, fmin_val]; exact min_le_right _ _
+  · rw [(k3 rfl).2, fmax_val, fmin_val]; exact max_le (min_le_right _ _) (by simp)
 
 /-- every `Ok` of `ci_wilson` on rounded reals — any rounding function, any critical value — is a
     two-sided interval with `0 ≤ lo ≤ hi ≤ 1` -/
@@ -1925,6 +1925,24 @@ theorem fmin_one_cases (x : XR) :
   | pinf => exact Or.inr ⟨1, by simp, le_rfl⟩
   | fin r => exact Or.inr ⟨min r 1, by simp, min_le_right _ _⟩
 
+/-- `x.max(0.).min(1.)` is a finite number in `[0, 1]` — whatever `x` is -/
+theorem fmin_fmax_unit_cases (x : XR) :
+    ∃ r : ℝ, fmin (fmax x (fin 0)) (fin 1) = fin r ∧ 0 ≤ r ∧ r ≤ 1 := by
+  cases x with
+  | nan => exact ⟨0, by simp, le_rfl, zero_le_one⟩
+  | ninf => exact ⟨0, by simp, le_rfl, zero_le_one⟩
+  | pinf => exact ⟨1, by simp, zero_le_one, le_rfl⟩
+  | fin r => exact ⟨min (max r 0) 1, by simp, le_min (le_max_right _ _) zero_le_one, min_le_right _ _⟩
+
+/-- `x.min(1.).max(0.)` is a finite number in `[0, 1]` — whatever `x` is -/
+theorem fmax_fmin_unit_cases (x : XR) :
+    ∃ r : ℝ, fmax (fmin x (fin 1)) (fin 0) = fin r ∧ 0 ≤ r ∧ r ≤ 1 := by
+  cases x with
+  | nan => exact ⟨1, by simp, zero_le_one, le_rfl⟩
+  | ninf => exact ⟨0, by simp, le_rfl, zero_le_one⟩
+  | pinf => exact ⟨1, by simp, zero_le_one, le_rfl⟩
+  | fin r => exact ⟨max (min r 1) 0, by simp, le_max_right _ _, max_le (min_le_right _ _) zero_le_one⟩
+
 /-- the clamped low bound of `ci_wilson`: never NaN, and `0 ≤ low` holds as an IEEE comparison -/
 theorem fmax_zero_ne_nan (x : XR) : fmax x (fin 0) ≠ nan := by
   rcases fmax_zero_cases x with h | ⟨r, h, _⟩ <;> rw [h] <;> simp
@@ -1982,9 +2000,11 @@ theorem finishWilson_ok_unitIv {conf : Confidence XR} {m s : XR} {i : Interval X
   · obtain ⟨rfl, rfl⟩ := k1 rfl
     exact unit_of_not_gt (fmax_zero_cases _) (fmin_one_cases _) hg
   · obtain ⟨rfl, rfl⟩ := k2 rfl
-    exact unit_of_not_gt (fmax_zero_cases _) h1 hg
+    obtain ⟨r, hr, hr0, _⟩ := fmin_fmax_unit_cases (NumOps.sub m s)
+    exact unit_of_not_gt (Or.inr ⟨r, hr, hr0⟩) h1 hg
   · obtain ⟨rfl, rfl⟩ := k3 rfl
-    exact unit_of_not_gt h0 (fmin_one_cases _) hg
+    obtain ⟨r, hr, _, hr1⟩ := fmax_fmin_unit_cases (NumOps.add m s)
+    exact unit_of_not_gt h0 (Or.inr ⟨r, hr, hr1⟩) hg
 
 /-- every `Ok` of `ci_wilson` on `XR`, whatever the critical value (finite, infinite or NaN):
     two finite bounds with `0 ≤ lo ≤ hi ≤ 1` -/
@@ -2009,9 +2029,48 @@ theorem ciWilson_invalidBounds_XR (crit : Crit XR) (conf : Confidence XR) (n k :
   · obtain ⟨rfl, rfl⟩ := k1 rfl
     exact ⟨fmax_zero_ne_nan _, fmin_one_ne_nan _, zero_le_fmax_zero _, fmin_one_le_one _⟩
   · obtain ⟨rfl, rfl⟩ := k2 rfl
-    exact ⟨fmax_zero_ne_nan _, by simp, zero_le_fmax_zero _, by simp⟩
+    obtain ⟨r, hr, hr0, _⟩ := fmin_fmax_unit_cases (NumOps.sub
+      (Proportion.wilsonCentre (Scalar.ofNat n) (Scalar.ofNat k) (crit (.z (Confidence.upper _).quantile)))
+      (Proportion.wilsonSpan (Scalar.ofNat n) (Scalar.ofNat k) (crit (.z (Confidence.upper _).quantile))))
+    have e : (NumOps.zero : XR) = fin 0 := rfl
+    have e1 : (NumOps.one : XR) = fin 1 := rfl
+    rw [e, e1, hr]
+    exact ⟨by simp, by simp, by simpa using hr0, by simp⟩
   · obtain ⟨rfl, rfl⟩ := k3 rfl
-    exact ⟨by simp, fmin_one_ne_nan _, by simp, fmin_one_le_one _⟩
+    obtain ⟨r, hr, _, hr1⟩ := fmax_fmin_unit_cases (NumOps.add
+      (Proportion.wilsonCentre (Scalar.ofNat n) (Scalar.ofNat k) (crit (.z (Confidence.lower _).quantile)))
+      (Proportion.wilsonSpan (Scalar.ofNat n) (Scalar.ofNat k) (crit (.z (Confidence.lower _).quantile))))
+    have e : (NumOps.zero : XR) = fin 0 := rfl
+    have e1 : (NumOps.one : XR) = fin 1 := rfl
+    rw [e, e1, hr]
+    exact ⟨by simp, by simp, by simp, by simpa using hr1⟩
+
+/-- after the repair of the one-sided arms: a one-sided `ci_wilson` on `XR` never answers
+    `InvalidBounds`, whatever the critical value (the finite bound is clamped into `[0, 1]` on both
+    sides and the far end is `1` resp. `0`) -/
+theorem ciWilson_one_sided_never_invalidBounds_XR (crit : Crit XR) (conf : Confidence XR) (n k : Nat)
+    (hk : conf.kind ≠ .twoSided) :
+    Proportion.ciWilson crit conf n k ≠ .err (.interval .invalidBounds) := by
+  intro h
+  obtain ⟨_, _, _, _, lo, hi, hg, k1, k2, k3⟩ := Proportion.ciWilson_eq_invalidBounds h
+  have e : (NumOps.zero : XR) = fin 0 := rfl
+  have e1 : (NumOps.one : XR) = fin 1 := rfl
+  cases conf
+  · exact hk rfl
+  · obtain ⟨rfl, rfl⟩ := k2 rfl
+    obtain ⟨r, hr, _, hr1⟩ := fmin_fmax_unit_cases (NumOps.sub
+      (Proportion.wilsonCentre (Scalar.ofNat n) (Scalar.ofNat k) (crit (.z (Confidence.upper _).quantile)))
+      (Proportion.wilsonSpan (Scalar.ofNat n) (Scalar.ofNat k) (crit (.z (Confidence.upper _).quantile))))
+    rw [e, e1, hr] at hg
+    simp at hg
+    linarith
+  · obtain ⟨rfl, rfl⟩ := k3 rfl
+    obtain ⟨r, hr, hr0, _⟩ := fmax_fmin_unit_cases (NumOps.add
+      (Proportion.wilsonCentre (Scalar.ofNat n) (Scalar.ofNat k) (crit (.z (Confidence.lower _).quantile)))
+      (Proportion.wilsonSpan (Scalar.ofNat n) (Scalar.ofNat k) (crit (.z (Confidence.lower _).quantile))))
+    rw [e, e1, hr] at hg
+    simp at hg
+    linarith
 
 theorem ciZNormal_ok_finIv (crit : Crit XR) (conf : Confidence XR) (n k : Nat)
     (hc : ∀ r, Scalar.isFinite (crit r) = true) {i : Interval XR}
